@@ -17,10 +17,14 @@ Context of an expansion (c11_ctx.py, Spec/MacroCtx.lean, Model/TagsCtx.lean, Pro
 with same-named files everywhere, INCLUDE/BINCLUDE issued from macro and loop bodies and followed by further relative INCLUDE/BINCLUDE
 statements - the hand expansion inlines the file the manual's search rule names; labels on / in front of the lines that open a construct at
 odd addresses on targets that insert pad bytes - the hand expansion has the label in front of the first expanded statement.
+Argument collection (c11_args.py, Spec/Model ArgFold.lean, Props/C11_Args.lean): the TEXT of macro call arguments, IRP / IRPN lists, IRPC strings,
+default values and arguments passed on to nested constructs, with character / string constants that contain lower-case letters, escapes, the other
+kind of quotation mark - in case-insensitive mode the conversion to upper case must not reach into a constant, with -U nothing is converted.
 """
 import json
 import os
 import re
+import sys
 import time
 
 from .. import common
@@ -30,6 +34,7 @@ from . import c11_long
 from . import c11_nest
 from . import c11_ctx
 from . import c11_labels
+from . import c11_args
 
 INC = os.path.join(common.REPO, "include")
 
@@ -1128,6 +1133,15 @@ def run(args):
         if "labels" in dist:
             dist["labels"]["wall_s"] = round(time.time() - t0, 1)
 
+        # ---------------- argument collection: the case folding of argument texts never reaches into quoted constants (c11_args.py)
+        t0 = time.time()
+        ev6, distinct6 = c11_args.run_stream(args, sys.modules[__name__], bdir, wd, drv_ok, dist, spec_fail, corr_fail, proof_problems, samples,
+                                             tree_stream)
+        evaluations += ev6
+        distinct |= distinct6
+        if "args" in dist:
+            dist["args"]["wall_s"] = round(time.time() - t0, 1)
+
     res.coverage = common.proof_coverage(audit, "C11", [
         "translate/tables.py MacroConsts (ArgCntMax, implicit parameter names via compiled dumper over asmdef.h)",
         "correspondence: real asl -P output vs Model/MacroCall.lean on generated macro bodies (differential test)",
@@ -1157,6 +1171,13 @@ def run(args):
         "the model's code image is compared with the real code (driver c11lab); SPEC Spec/MacroLabels.lean (hand expansion with renamed labels) is "
         "executable and judges the real code, its expansion is also assembled by the real asl; a program for which the theorems' hypotheses hold and "
         "model and spec differ is reported as a proof problem",
+        "argument collection (Model/ArgFold.lean: asmsub.c UpString with hypquot / LastBk and its call sites in ExpandMacro, ProcessIRPArgs, "
+        "ProcessIRPNArgs; Props/C11_Args.lean: C11_args_fold_refines - for every tame argument text the stored text is the SPEC's (upper case outside "
+        "quoted constants only) -, C11_args_quoted_untouched - no character of a constant is ever changed -, C11_args_outside_upper, C11_args_length, "
+        "C11_args_case_sensitive, C11_args_prog_refines / C11_args_expansion for every construct tree; `tame` (no backslash outside a constant, no "
+        "escaped backslash inside one) is decidable, evaluated by the driver on every generated text and needed: C11_finding_escaped_backslash = known "
+        "finding escaped-backslash-before-closing-quote-ends-case-protection-late): the text the real asl inserts is compared with the model and judged "
+        "by the SPEC (driver c11arg), the SPEC's hand expansion is assembled by the real asl, the -P output is compared case exact with the model's expansion",
         "the line buffer (as_dynstr, ReplaceToken's growth rule) is not modelled: the token layer model works on unbounded lists, which is what the "
         "real code does on the unchanged tree for every length the long-line stream generates"])
     res.coverage.update(
@@ -1182,10 +1203,19 @@ def run(args):
              "symbols with the names of private labels in front of / behind the constructs; labels stream: one program per evaluation (one-byte label / "
              "reference statements in MACRO/REPT/IRP/IRPN/IRPC/WHILE bodies nested 1..5 deep, 0..3 iterations, GLOBALSYMBOLS, macros called twice, references "
              "to labels 0..4 bodies further out in front of and behind the reference, names defined again in between, global namesakes, names only a sibling "
-             "body defines, undefined names), distinct by the program's encoding",
+             "body defines, undefined names), distinct by the program's encoding; "
+             "args stream: one argument text per evaluation (character / string constants with lower-case letters, escapes, the other quotation mark, "
+             "\\{..}, text in front of / between / behind constants, backslashes outside constants, constants ending in an escaped backslash; collected "
+             "by MACRO, IRP, IRPN with groups of 1 and 2; both case modes), distinct by (construct, mode, text), and one construct program per evaluation "
+             "(macro calls positional / keyword / default / excess / ALLARGS / ARGCOUNT, IRP, IRPN groups 1..4 with ragged tails, IRPC, parameters passed "
+             "on to a nested IRP / IRPN / IRPC / macro call, constructs inside REPT, 25 % with -U), distinct by the program's encoding",
         samples=samples, distribution=dist)
     res.assumptions = ["the hand expansion of private labels renames them with a suffix per expansion instance (construct id, iteration)",
-                       "in case-insensitive mode the harness upper-cases arguments outside quotes before handing them to the model (UpString is not modelled)",
+                       "in case-insensitive mode the harness upper-cases arguments outside quotes before handing them to the token / tag machine models (UpString "
+                       "itself is modelled and proved in Model/ArgFold.lean / Props/C11_Args.lean and run against the real asl by the args stream)",
+                       "args stream: ALLARGS is put together from the arguments as written, before they are folded (the model folds first); programs that use "
+                       "ALLARGS are compared with the -P output case-blind outside constants; letters outside ASCII are not generated (UpCaseTable depends on "
+                       "the code page)",
                        "INCLUDE/BINCLUDE/WHILE hand expansions are produced by the harness, not by the Lean spec",
                        "tag machine model: a source line is already split into statement kind and text fields; the token layer is applied per field "
                        "(a substitution that changes the statement kind or the argument count of a line is outside the model); conditional assembly, "
